@@ -22,7 +22,7 @@ from rv.readers.reader import read_sunvox_file
 
 PROPERTY = "C12"
 LEVEL = "exploration"
-BUDGET_S = {"quick": 60, "thorough": 900}
+BUDGET_S = {"quick": 60, "thorough": 3600}
 RULE = (
     "one evaluation = one seeded history of 5-60 writes to packed words: note sub-fields (controller, effect, XX, YY), "
     "note words (ctl, val), primary note fields over their domains (every NOTECMD, vel 0..129, 16-bit module), whole "
